@@ -350,3 +350,44 @@ def windows_obligations():
     """rolling_window / expanding_window (validation, window centres, query plumbing) against Model/Windows.v (C14)"""
     tag, mod_, funcs, tmpl, imports = WINDOWS_SPEC
     return tie(tag, mod_, funcs, tmpl, WINDOWS_THEOREMS, imports)
+
+
+WEIGHTS_FUNCS = [(_BASE_UTILS, "check_data"), "variance_to_weights", "maxabs"]
+V2W_THEOREMS = ["src_variance_to_weights_eq", "src_variance_to_weights_single_eq", "src_variance_to_weights_defaults"]
+MAXABS_THEOREMS = ["src_maxabs_eq", "src_maxabs_raises"]
+WEIGHTS_IMPORTS = ("From Coq Require Import Qminmax.\n"
+                   "From Verde Require Import Lib.QList Model.Weights Proofs.WeightsProofs Proofs.PyLiteBridge "
+                   "Proofs.PyLiteWeights.")
+WEIGHTS_SPEC = ("WeightsSrc", os.path.join("verde", "utils.py"), WEIGHTS_FUNCS, "pylite_weights.v.tmpl", WEIGHTS_IMPORTS)
+
+
+def weights_obligations(theorems=None):
+    """verde/utils.py variance_to_weights against Model/Weights.v (C10) and maxabs against Model/Coordinates.v
+    maxabs (C13); one generated file, each property reports its own theorems"""
+    tag, mod_, funcs, tmpl, imports = WEIGHTS_SPEC
+    return tie(tag, mod_, funcs, tmpl, theorems or (V2W_THEOREMS + MAXABS_THEOREMS), imports)
+
+
+def c10_obligations():
+    """variance_to_weights (more ties of C10 are appended here)"""
+    return weights_obligations(V2W_THEOREMS) + blockreduce_obligations()
+
+
+def c13_obligations():
+    """the coordinate functions of C13 plus maxabs"""
+    return coord_obligations() + weights_obligations(MAXABS_THEOREMS)
+
+
+BLOCKRED_FUNCS = ["BlockReduce._block_coordinates", "BlockReduce.filter"]
+BLOCKRED_THEOREMS = ["src_BlockReduce_block_coordinates_eq", "src_BlockReduce_filter_unweighted_eq"]
+BLOCKRED_IMPORTS = ("From Verde Require Import Lib.QList Model.BlockReduce Proofs.BlockReduceProofs Proofs.PyLiteBridge "
+                    "Proofs.PyLiteBlocks.")
+BLOCKRED_SPEC = ("BlockReduceSrc", os.path.join("verde", "blockreduce.py"), BLOCKRED_FUNCS,
+                 ["pylite_blockreduce.v.tmpl", "pylite_blockreduce_filter.v.tmpl"], BLOCKRED_IMPORTS)
+
+
+def blockreduce_obligations():
+    """verde/blockreduce.py BlockReduce._block_coordinates against Model/BlockReduce.v block_coords (C09, C10) and
+    BlockReduce.filter without weights against block_coords / block_data (C09)"""
+    tag, mod_, funcs, tmpl, imports = BLOCKRED_SPEC
+    return tie(tag, mod_, funcs, tmpl, BLOCKRED_THEOREMS, imports)
